@@ -8,4 +8,7 @@ python3 tools/translate.py
 ( cd lean && lake build OhkamiModel Proofs driver )
 [ -f harness/Cargo.lock ] || cp /repo/Cargo.lock harness/Cargo.lock
 ( cd harness && cargo build --offline )
+python3 tools/sync_c16.py >/dev/null
+[ -f harness_c16/Cargo.lock ] || cp /repo/Cargo.lock harness_c16/Cargo.lock
+( cd harness_c16 && cargo build --offline )
 echo "setup done"
